@@ -1,2 +1,145 @@
-/-! Line-protocol driver of the Lsr model (stub). -/
-def main : IO Unit := pure ()
+import SoxrModel.Lsr.Model
+/-! Line-protocol driver of the Lsr model (`soxr_lsr`).
+
+    stdin: the op lines `harness/lsr/lsr.c` reads, each followed by ` | ` and the oracle tokens recorded on the real run
+    (`c0`/`c1` answers of `resampler_create`, `g<n>` of `resampler_output`, `k<n>:<null>` of the callback); `seq <label>`
+    forgets the converter.
+    stdout: one line per op, `<events> | <result> | <state>`, in the canonical form `checks/c19.py` builds from the
+    harness's `E`/`R`/`S` lines; `… | CRASH` when the model dereferences NULL; `… | DESYNC` when the oracle has no answer of
+    the kind asked for. -/
+namespace Soxr.Lsr.Driver
+open Soxr.Lsr Soxr.Conv
+
+def hexDigit (c : Char) : Nat :=
+  if '0' ≤ c ∧ c ≤ '9' then c.toNat - '0'.toNat
+  else if 'a' ≤ c ∧ c ≤ 'f' then c.toNat - 'a'.toNat + 10
+  else if 'A' ≤ c ∧ c ≤ 'F' then c.toNat - 'A'.toNat + 10
+  else 0
+
+def hexToNat (s : String) : Nat := s.foldl (fun acc c => acc * 16 + hexDigit c) 0
+
+def hexChar (d : Nat) : Char := if d < 10 then Char.ofNat (48 + d) else Char.ofNat (87 + d)
+
+def toHex16 (v : Nat) : String :=
+  let rec go : Nat → Nat → List Char → List Char
+    | 0, _, acc => acc
+    | k + 1, v, acc => go k (v / 16) (hexChar (v % 16) :: acc)
+  String.ofList (go 16 v [])
+
+/-- a C `long` argument as a 64-bit word. -/
+def longOf (s : String) : BitVec 64 := BitVec.ofInt 64 (s.toInt?.getD 0)
+
+/-- `(long)` of a `size_t`. -/
+def asLong (n : Nat) : Int := (BitVec.ofNat 64 n).toInt
+
+def b01 (s : String) : Bool := s == "1"
+def s01 (b : Bool) : String := if b then "1" else "0"
+
+def evStr : Ev → String
+  | .create r ok => s!"cr:{toHex16 r}:{s01 ok}"
+  | .setRatio r n => s!"sr:{toHex16 r}:{n}"
+  | .input n => s!"in:{n}"
+  | .flush => "fl"
+  | .process n => s!"pr:{n}"
+  | .output g => s!"out:{g}"
+  | .close => "cl"
+  | .cb n null => s!"cb:{n}:{s01 null}"
+
+def parseTok (s : String) : Option Tok :=
+  match s.toList with
+  | 'c' :: r => some (.c (String.ofList r == "1"))
+  | 'g' :: r => (String.ofList r).toNat?.map .g
+  | 'k' :: r =>
+    match (String.ofList r).splitOn ":" with
+    | [n, z] => n.toNat?.map fun n => .k n (z == "1")
+    | _ => none
+  | _ => none
+
+def stateStr : Option Obj → String
+  | none => "-"
+  | some o => s!"err={s01 o.error.isSome} io={toHex16 o.ioRatio} fl={s01 o.flushing} init={s01 o.inited} ch={o.chans} fn={s01 o.hasFn}"
+
+def evsStr (c : Ctx) : String := " ".intercalate (c.evs.reverse.map evStr)
+
+def optLong : Option Nat → String
+  | none => "-"
+  | some n => toString (asLong n)
+
+/-- runs one op: new current converter, output line. -/
+def runOp (cur : Option Obj) (toks : List String) (oracle : List Tok) : Option Obj × String :=
+  let c0 : Ctx := ⟨[], oracle⟩
+  let fuel := oracle.length + 2
+  let fin {α : Type} (r : R α) (k : α → Option Obj × String) : Option Obj × String :=
+    match r with
+    | .ok a c =>
+      let (p, res) := k a
+      (p, s!"{evsStr c} | {res} | {stateStr p}")
+    | .crash c => (none, s!"{evsStr c} | CRASH")
+    | .desync c => (none, s!"{evsStr c} | DESYNC")
+  match toks with
+  | ["new", id, ch, ep] =>
+    let o := fresh (id.toNat?.getD 0) (ch.toNat?.getD 1) false
+    (some o, s!" | h=1 e={if b01 ep then "0" else "77"} | {stateStr (some o)}")
+  | ["cbnew", id, ch, ep, fn] =>
+    let o := fresh (id.toNat?.getD 0) (ch.toNat?.getD 1) (b01 fn)
+    (some o, s!" | h=1 e={if b01 ep then "0" else "77"} | {stateStr (some o)}")
+  | ["process", rb, i, o, eoi, din, dout, ion, pn] =>
+    let d : Data := ⟨hexToNat rb, longOf i, longOf o, b01 eoi, b01 din, b01 dout⟩
+    let p := if b01 pn then none else cur
+    fin (srcProcess fuel p (if b01 ion then none else some d) c0) fun (p', r) =>
+      (if b01 pn then cur else p', s!"rc={r.rc} used={optLong r.used} gen={optLong r.gen}")
+  | ["read", rb, olen, dout, pn, _] =>
+    let p := if b01 pn then none else cur
+    fin (srcCallbackRead fuel p (hexToNat rb) (longOf olen) (b01 dout) c0) fun (p', ret) =>
+      (if b01 pn then cur else p', s!"ret={ret}")
+  | ["simple", id, ch, rb, i, o, ion] =>
+    let d : Data := ⟨hexToNat rb, longOf i, longOf o, false, false, false⟩
+    match srcSimple fuel (if b01 ion then none else some d) (id.toNat?.getD 0) (ch.toInt?.getD 0) c0 with
+    | .ok r _ =>
+      let res := match r with
+        | .refused => "rc=-1 refused"
+        | .garbage => "rc=-1 garbage"
+        | .done rc u g => s!"rc={rc} used={asLong u} gen={asLong g}"
+      (cur, s!" | {res} | {stateStr none}")
+    | .crash _ => (none, " | CRASH")
+    | .desync _ => (none, " | DESYNC")
+  | ["setratio", rb, pn] =>
+    let p := if b01 pn then none else cur
+    fin (srcSetRatio p (hexToNat rb) c0) fun (p', rc) => (if b01 pn then cur else p', s!"rc={rc}")
+  | ["reset", pn] =>
+    let p := if b01 pn then none else cur
+    fin (srcReset p c0) fun (p', rc) => (if b01 pn then cur else p', s!"rc={rc}")
+  | ["error", pn] =>
+    let p := if b01 pn then none else cur
+    fin (srcError p c0) fun rc => (cur, s!"rc={rc}")
+  | ["delete", pn] =>
+    let p := if b01 pn then none else cur
+    fin (srcDelete p c0) fun _ => (if b01 pn then cur else none, "ret=0")
+  | ["strerror", code] => (cur, s!" | class={srcStrerror (code.toInt?.getD 0)} | {stateStr cur}")
+  | ["name", id] => (cur, s!" | has={s01 (srcHasName (id.toInt?.getD 0))} same=1 | {stateStr cur}")
+  | ["valid", rb] => (cur, s!" | valid={s01 (srcIsValidRatio (hexToNat rb))} | {stateStr cur}")
+  | _ => (cur, " | unknown-op | -")
+
+partial def loop (h : IO.FS.Stream) (out : IO.FS.Stream) (cur : Option Obj) : IO Unit := do
+  let line ← h.getLine
+  if line.isEmpty then return ()
+  let line := line.trimAscii.toString
+  if line.startsWith "seq" then
+    out.putStrLn line
+    loop h out none
+  else
+    let parts := line.splitOn "|"
+    let toks := ((parts.getD 0 "").splitOn " ").filter (· ≠ "")
+    let oracle := (((parts.getD 1 "").splitOn " ").filter (· ≠ "")).filterMap parseTok
+    if toks.isEmpty then loop h out cur
+    else
+      let (cur', s) := runOp cur toks oracle
+      out.putStrLn s
+      loop h out cur'
+
+end Soxr.Lsr.Driver
+
+def main : IO Unit := do
+  let stdin ← IO.getStdin
+  let stdout ← IO.getStdout
+  Soxr.Lsr.Driver.loop stdin stdout none
